@@ -31,8 +31,10 @@ CHECKS = {
             'entry) with the exact rational solution of the documented scheme; the two reference codings must agree exactly first. Drivers '
             'one_pop..five_pops are run for T <= one time step with parameters passed as constants and as functions of time (all, one size, theta0 '
             'only) and compared with each other (1e-12) and with inject -> sweep -> ... of the reference, for the zero density and every unit density.',
-            'Arrays have equal length on every axis (as all drivers use them; the .pyx loop bounds are only right for those and Cython is not '
-            'available to rebuild them). Lines on which elimination without pivoting has a (near-)zero pivot get a proportionally wider tolerance '
+            'Added after the seeded waves: every kernel and precalc kernel also on densities with a different number of grid points per axis (the '
+            'wrapper loop ranges were wrong for those and were repaired, a6b8f25; the generated wrapper C follows the .pyx extents through '
+            'mc/pyxsync.py because Cython is not available); drivers over several steps with every parameter family changing in time against the '
+            'exact one-step operator applied step by step. Lines on which elimination without pivoting has a (near-)zero pivot get a proportionally wider tolerance '
             'and are counted in evidence. delj-on references are float (exp); quick tier thins the parameter lattice (cap reported).',
             'DESIGN.md §3 C02'),
     'C03': ('model_checking',
